@@ -4,7 +4,11 @@ import (
 	"flag"
 	"fmt"
 	"os"
+	"strconv"
+	"strings"
 	"time"
+
+	"github.com/alpacahq/marketstore/v4/zzverif/simrt"
 )
 
 // Worker entry point:
@@ -49,9 +53,24 @@ func cmdRun(args []string) int {
 	fs.StringVar(&a.Tier, "tier", "quick", "quick|thorough")
 	fs.StringVar(&a.Known, "known", "", "known findings file")
 	fs.StringVar(&a.Out, "out", "-", "result file")
+	keep := fs.String("keep", "", "minimisation: comma separated indexes of the generated operations to keep ('none' = keep none)")
+	maxPre := fs.Int("maxpreempt", -1, "minimisation: cap on preemptive task switches per simulation (-1 = no cap)")
+	skipPre := fs.Int("skippreempt", 0, "suppress the first K preemptions (minimisation)")
 	if err := fs.Parse(args); err != nil {
 		return 2
 	}
+	if *keep != "" {
+		keepOps = map[int]bool{}
+		if *keep != "none" {
+			for _, f := range strings.Split(*keep, ",") {
+				if n, err := strconv.Atoi(strings.TrimSpace(f)); err == nil {
+					keepOps[n] = true
+				}
+			}
+		}
+	}
+	simrt.GlobalMaxPreempt = *maxPre
+	simrt.GlobalSkipPreempt = *skipPre
 	InstallLogger()
 	if a.Known != "" {
 		if err := LoadKnown(a.Known); err != nil {
@@ -72,6 +91,8 @@ func cmdRun(args []string) int {
 		}
 		seed := a.Seed + uint64(i)*a.Stride
 		res.Seeds = append(res.Seeds, seed)
+		simrt.MaxPreemptSeen = 0
+		lastGenOps = 0
 		if os.Getenv("VERIF_PROGRESS") != "" {
 			fmt.Println("SEED", seed) // progress marker: lets the driver attribute a fatal runtime error
 		}
